@@ -19,6 +19,7 @@
 -/
 import IgrisModel.C16.Refine
 import IgrisModel.C16.More
+import IgrisModel.C16.Round3
 namespace Igris.C16
 
 /-! ### sorted_inv -/
@@ -955,5 +956,401 @@ theorem destroy_in_callback_witness :
     (execX (fun k _ => if k = 0 then [ActX.destroy 1] else []) 5 5 0 ((Mgr.init.plan3 0 0 5).plan3 1 0 5)).2 =
       ([⟨0, 5⟩], Stat.done) := by
   decide
+
+
+/-! ## Extension round 3
+
+### stimer.c in the arithmetic of a `w`-bit `long`, without any window (`w = 64`: the harness) -/
+
+/-- `stimer_check` is true exactly when the timer is planned and the ELAPSED time — the difference
+of the two `long` values reduced modulo 2^w into the signed range — has reached the interval
+(all three read as signed `long`s).  Every timer, every `curtime`. -/
+theorem stimer_check_elapsed_iff {w : Nat} (t : STimerN w) (c : BitVec w) :
+    stimerCheckN t c = true ↔
+      t.planed = true ∧ t.interval.toInt ≤ (c.toInt - t.start.toInt).bmod (2 ^ w) := by
+  simp [stimerCheckN, BitVec.toInt_sub]
+
+/-- what the model calls elapsed IS that residue -/
+theorem stimer_elapsed_eq {w : Nat} (t : STimerN w) (c : BitVec w) :
+    stimerElapsedN t c = (c.toInt - t.start.toInt).bmod (2 ^ w) := by
+  simp [stimerElapsedN, BitVec.toInt_sub]
+
+/-- TRANSFER to the due rule over the integers, with the EXACT admissible region: the wrapped
+`stimer_check` agrees with `planned ∧ start + interval ≤ curtime` (no wrap, the `long` values read
+as integers) IF AND ONLY IF the timer is not planned, or `curtime − start` lies in `[−2^(w−1),
+2^(w−1))`, or it lies above and the interval is so small that the wrapped (negative) elapsed time
+still reaches it, or it lies below and the interval is larger than the wrapped elapsed time. -/
+theorem stimer_transfer_iff {w : Nat} (hw : 0 < w) (t : STimerN w) (c : BitVec w) :
+    (stimerCheckN t c = true ↔ t.planed = true ∧ t.start.toInt + t.interval.toInt ≤ c.toInt) ↔
+      (t.planed = false ∨
+       (-(2 ^ (w - 1)) ≤ c.toInt - t.start.toInt ∧ c.toInt - t.start.toInt < 2 ^ (w - 1)) ∨
+       (2 ^ (w - 1) ≤ c.toInt - t.start.toInt ∧ t.interval.toInt ≤ c.toInt - t.start.toInt - 2 ^ w) ∨
+       (c.toInt - t.start.toInt < -(2 ^ (w - 1)) ∧ c.toInt - t.start.toInt + 2 ^ w < t.interval.toInt)) := by
+  have hp := two_pow_half w hw
+  obtain ⟨s1, s2⟩ := toInt_range t.start
+  obtain ⟨i1, i2⟩ := toInt_range t.interval
+  obtain ⟨c1, c2⟩ := toInt_range c
+  rw [stimer_check_elapsed_iff, bmod_cases hw _ (by omega) (by omega)]
+  cases hpl : t.planed with
+  | false => simp
+  | true =>
+    simp only [true_and, Bool.true_eq_false, false_or]
+    split
+    · omega
+    · split <;> omega
+
+/-- inside the window (the clock is less than half the range away from the start point, on either
+side) the integer rule holds for EVERY interval, also `LONG_MAX`, `LONG_MIN`, 0 and −1 -/
+theorem stimer_transfer_in_window {w : Nat} (hw : 0 < w) (t : STimerN w) (c : BitVec w)
+    (h1 : -(2 ^ (w - 1)) ≤ c.toInt - t.start.toInt) (h2 : c.toInt - t.start.toInt < 2 ^ (w - 1)) :
+    stimerCheckN t c = true ↔ t.planed = true ∧ t.start.toInt + t.interval.toInt ≤ c.toInt :=
+  (stimer_transfer_iff hw t c).mpr (Or.inr (Or.inl ⟨h1, h2⟩))
+
+-- satisfiable: the parked flag timer of the seeded change (start 5250, interval LONG_MAX, clock 5000)
+example : (-(2 ^ (64 - 1)) : Int) ≤ (5000#64).toInt - (5250#64).toInt ∧
+    (5000#64).toInt - (5250#64).toInt < 2 ^ (64 - 1) := by decide
+
+/-- a timer whose start point lies AHEAD of the clock (by at most half the range) is not due,
+whatever non-negative interval it has — in particular the parked timer with interval `LONG_MAX` -/
+theorem stimer_start_ahead_not_due {w : Nat} (hw : 0 < w) (t : STimerN w) (c : BitVec w)
+    (hahead : c.toInt < t.start.toInt) (hwin : -(2 ^ (w - 1)) ≤ c.toInt - t.start.toInt)
+    (hiv : 0 ≤ t.interval.toInt) : stimerCheckN t c = false := by
+  have hp : (0 : Int) < 2 ^ (w - 1) := Int.pow_pos (by decide)
+  have h := stimer_transfer_in_window hw t c hwin (by omega)
+  cases hc : stimerCheckN t c with
+  | false => rfl
+  | true => have := (h.mp hc).2; omega
+
+example : (5000#64).toInt < (5250#64).toInt ∧ (0 : Int) ≤ (9223372036854775807#64).toInt := by decide
+
+/-- outside the region both directions of the disagreement occur (`w = 64`): start `LONG_MAX − 5`,
+interval 10, clock `LONG_MIN + 10` (16 ticks later, across the wrap): due, while the integer rule
+says not due; start `LONG_MIN`, interval 5, clock `LONG_MAX`: not due (elapsed reads −1), while the
+integer rule says due -/
+theorem stimer_transfer_outside_witness :
+    let a : STimerN 64 := ⟨9223372036854775802#64, 10#64, true⟩
+    let b : STimerN 64 := ⟨BitVec.ofInt 64 (-9223372036854775808), 5#64, true⟩
+    stimerCheckN a (BitVec.ofInt 64 (-9223372036854775798)) = true ∧
+    ¬ (a.start.toInt + a.interval.toInt ≤ (BitVec.ofInt 64 (-9223372036854775798)).toInt) ∧
+    stimerCheckN b 9223372036854775807#64 = false ∧
+    b.start.toInt + b.interval.toInt ≤ (9223372036854775807#64).toInt := by
+  decide
+
+/-- why `stimer_check` must compare the ELAPSED time with the interval and not the clock with
+`stimer_finish()`: for the parked timer (start 5250, interval `LONG_MAX`, clock 5000) the code's
+form says "not due", the form `(long)(curtime − stimer_finish(t)) ≥ 0` says "due" -/
+theorem stimer_check_via_finish_witness :
+    let t : STimerN 64 := ⟨5250#64, 9223372036854775807#64, true⟩
+    stimerCheckN t 5000#64 = false ∧ (0 : Int) ≤ (5000#64 - stimerFinishN t).toInt := by
+  decide
+
+/-- `stimer_finish()` is `start + interval` over the integers reduced modulo 2^w (as `unsigned long`) -/
+theorem stimer_finish_eq {w : Nat} (t : STimerN w) :
+    ((stimerFinishN t).toNat : Int) = (t.start.toInt + t.interval.toInt) % 2 ^ w := by
+  have e : stimerFinishN t = BitVec.ofInt w (t.start.toInt + t.interval.toInt) := by
+    simp [stimerFinishN, BitVec.ofInt_add]
+  rw [e, BitVec.toNat_ofInt, cast_two_pow]
+  have : (0 : Int) < 2 ^ w := Int.pow_pos (by decide)
+  have := Int.emod_nonneg (t.start.toInt + t.interval.toInt) (Int.ne_of_gt this)
+  omega
+
+/-- No drift in the `w`-bit arithmetic itself, for EVERY sequence of polls (no window): after any
+polls `STIMER_PERIODIC` has advanced the start point by exactly (number of firings) · interval
+modulo 2^w, and has changed neither the interval nor the planned flag -/
+theorem stimer_periodicN_no_drift {w : Nat} (t : STimerN w) (ts : List (BitVec w)) :
+    (stimerPollsN t ts).1.start = t.start + BitVec.ofNat w ((stimerPollsN t ts).2.count true) * t.interval ∧
+    (stimerPollsN t ts).1.interval = t.interval ∧ (stimerPollsN t ts).1.planed = t.planed := by
+  induction ts generalizing t with
+  | nil => simp [stimerPollsN]
+  | cons now ts ih =>
+    simp only [stimerPollsN]
+    by_cases hc : stimerCheckN t now = true
+    · have e : stimerPeriodicN t now = (stimerSwiftN t, true) := by simp [stimerPeriodicN, hc]
+      rw [e]
+      obtain ⟨h1, h2, h3⟩ := ih (stimerSwiftN t)
+      simp only [stimerSwiftN] at h1 h2 h3 ⊢
+      refine ⟨?_, h2, h3⟩
+      rw [h1, List.count_cons_self]
+      generalize List.count true _ = n
+      have : BitVec.ofNat w (n + 1) = BitVec.ofNat w n + 1#w := by simp [BitVec.ofNat_add]
+      rw [this, BitVec.add_mul, BitVec.one_mul]
+      ac_rfl
+    · have e : stimerPeriodicN t now = (t, false) := by simp [stimerPeriodicN, hc]
+      rw [e]
+      obtain ⟨h1, h2, h3⟩ := ih t
+      refine ⟨?_, h2, h3⟩
+      rw [h1]; simp
+
+/-! ### `timer_spec<T>` at every width, signed and unsigned (`WrapN.lean`)
+
+`w = 64, sgn = true`: the shipped `timer_manager`; `w = 32, sgn = true`: `timer_spec<int32_t>` (a
+1 kHz tick wraps after 24.8 days); `w = 32, sgn = false`: `timer_spec<uint32_t>`.  The window
+precondition is the one of `wrap_refines` with `2^31` replaced by `2^(w−1)`. -/
+
+/-- one `exec(now)`: the `w`-bit manager makes exactly the callbacks of the unbounded-time manager
+(deadlines modulo 2^w), ends in its state modulo 2^w and returns when it returns -/
+theorem wrapN_exec_refines {w : Nat} (sgn : Bool) {G D now : Int} (P : ParamsN w G D) (cb : Cb)
+    (hcb : CbWin G D now cb) (fuel k : Nat) (m : Mgr) (hw : Win G D now m) :
+    execLoopN sgn (cbToN w cb) (wrN w now) fuel k (m.toN w) =
+      ((execLoop cb now fuel k m).1.toN w, (execLoop cb now fuel k m).2.1.map (Fire.toN w),
+        (execLoop cb now fuel k m).2.2) :=
+  (execLoop_simN sgn P cb hcb fuel k m hw).1
+
+/-- whole histories, crossing the wrap of the counter any number of times -/
+theorem wrapN_refines {w : Nat} (sgn : Bool) {G D : Int} (P : ParamsN w G D) (ops : List Op) (lo c : Int)
+    (m : Mgr) (hm : WF m) (hj : J D lo c m) (hc : c ≤ lo + G) (hh : HistWin G D lo c ops)
+    (hfin : (runOps m ops).2.2 = true) :
+    runOpsN sgn (m.toN w) (ops.map (Op.toN w)) =
+      ((runOps m ops).1.toN w, (runOps m ops).2.1.map (fun fs => fs.map (Fire.toN w)), true) :=
+  runOps_simN sgn P ops lo c m hm hj hc hh hfin
+
+/-- … hence from a fresh manager the callbacks and the pending set are those of the REFERENCE
+scheduler run in unbounded time on the same history, read modulo 2^w: due exactly when due, in
+deadline order, across the wrap — for int32_t, int64_t, uint32_t and every other width -/
+theorem wrapN_refines_reference {w : Nat} (sgn : Bool) {G D : Int} (P : ParamsN w G D) (ops : List Op)
+    (t0 : Int) (hh : HistWin G D t0 t0 ops) (hfin : (runOps Mgr.init ops).2.2 = true) :
+    ∃ (fss : List (List Fire)) (m' : Mgr),
+      Ref.Hist Ref.none ops fss (absM m') ∧
+      runOpsN sgn MgrN.init (ops.map (Op.toN w)) = (m'.toN w, fss.map (fun fs => fs.map (Fire.toN w)), true) := by
+  refine ⟨(runOps Mgr.init ops).2.1, (runOps Mgr.init ops).1,
+    refines_reference_init ops (HistWin.valid ops t0 t0 hh) hfin, ?_⟩
+  exact wrapN_refines sgn P ops t0 t0 Mgr.init init_wf (by intro i hi; simp [Mgr.init] at hi)
+    (by have := P.g0; omega) hh hfin
+
+-- the parameters exist for the three instances (gap and interval up to 2^30 resp. 2^62 ticks)
+example : ParamsN 32 (2 ^ 30) (2 ^ 30 - 1) := ⟨by decide, by decide, by decide⟩
+example : ParamsN 64 (2 ^ 62) (2 ^ 62 - 1) := ⟨by decide, by decide, by decide⟩
+-- and a history that starts 10 ticks before the wrap of int32_t (2^31 = 2147483648) and crosses it
+example : HistWin (2 ^ 30) (2 ^ 30 - 1) 2147483638 2147483638
+    [Op.plan 0 2147483638 5, Op.exec 2147483644 (fun _ _ => []) 9, Op.exec 2147483700 (fun _ _ => []) 99] := by
+  refine ⟨by omega, by omega, by omega, by omega, by omega, by omega, ?_, by omega, by omega, ?_, trivial⟩
+  · intro k i a ha; simp at ha
+  · intro k i a ha; simp at ha
+
+/-- NO DRIFT ACROSS THE WRAP: a planned periodic timer (deadline `f`, interval `d`) that no later
+operation names fires, on the `w`-bit manager, over the whole history and however often the
+counter wraps, exactly at `f, f+d, …, f+(n−1)·d` read modulo 2^w — the k-th firing at start + k·interval
+exactly —, stays planned, and `n` counts the deadlines up to the latest `exec` time -/
+theorem wrapN_no_drift {w : Nat} (sgn : Bool) {G D : Int} (P : ParamsN w G D) (i : Nat) (ops : List Op)
+    (lo c : Int) (m : Mgr) (hm : WF m) (hj : J D lo c m) (hc : c ≤ lo + G) (hh : HistWin G D lo c ops)
+    (hu : ∀ op ∈ ops, OpUntouched i op) (hfin : (runOps m ops).2.2 = true) (hi : i ∈ m.lst) :
+    ∃ n : Nat,
+      ((runOpsN sgn (m.toN w) (ops.map (Op.toN w))).2.1.flatten.filter (fun f => f.id = i)).map (·.deadline) =
+        (List.range n).map (fun (q : Nat) => wrN w ((m.tm i).finish + (q : Int) * (m.tm i).interval)) ∧
+      (runOpsN sgn (m.toN w) (ops.map (Op.toN w))).1.tm i =
+        ⟨wrN w ((m.tm i).start + (n : Int) * (m.tm i).interval), wrN w (m.tm i).interval⟩ ∧
+      i ∈ (runOpsN sgn (m.toN w) (ops.map (Op.toN w))).1.lst ∧
+      (∀ t ∈ execTimes ops, t < (m.tm i).finish + (n : Int) * (m.tm i).interval) ∧
+      (0 < n → ∃ t ∈ execTimes ops, (m.tm i).finish + ((n : Int) - 1) * (m.tm i).interval ≤ t) := by
+  obtain ⟨n, h1, h2, h3, h4, h5⟩ := no_drift_history i ops m hm (HistWin.valid ops lo c hh) hu hfin hi
+  refine ⟨n, ?_, ?_, ?_, h4, h5⟩
+  · rw [wrapN_refines sgn P ops lo c m hm hj hc hh hfin]
+    simp only
+    rw [fires_toN, h1, List.map_map]
+    rfl
+  · rw [wrapN_refines sgn P ops lo c m hm hj hc hh hfin]
+    show ((runOps m ops).1.tm i).toN w = _
+    rw [h2]; rfl
+  · rw [wrapN_refines sgn P ops lo c m hm hj hc hh hfin]
+    exact h3
+
+/-- `minimal_interval` is the unbounded one modulo 2^w (no precondition) -/
+theorem wrapN_minimal_interval {w : Nat} (m : Mgr) (now : Int) :
+    (m.toN w).minimalInterval (wrN w now) = (m.minimalInterval now).map (wrN w) := by
+  unfold MgrN.minimalInterval Mgr.minimalInterval
+  show (match m.lst with | [] => none | i :: _ => some (((m.tm i).toN w).finish - wrN w now)) = _
+  cases m.lst with
+  | nil => rfl
+  | cons i rest => simp [wrN_sub]
+
+/-- signed and unsigned instances differ OUTSIDE the window: a start 10 ticks in the future is not
+due on `timer_spec<int32_t>` (the elapsed time reads −10) and fires at once on `timer_spec<uint32_t>` -/
+theorem wrapN_signed_future_start_witness :
+    (execLoopN (w := 32) true (fun _ _ => []) (wrN 32 100) 1 0
+        (MgrN.init.plan3 0 (wrN 32 110) (wrN 32 1073741824))).2.1 = [] ∧
+    (execLoopN (w := 32) false (fun _ _ => []) (wrN 32 100) 1 0
+        (MgrN.init.plan3 0 (wrN 32 110) (wrN 32 1073741824))).2.1 = [⟨0, wrN 32 1073741934⟩] := by
+  decide
+
+/-- the window cannot be widened to "gap < 2^(w−1) and interval < 2^(w−1)" on the signed instance
+either: the overdue timer 0 is starved by a timer planned 2^31 − 2 ticks later with interval 2^31 − 1 -/
+theorem wrapN_window_needed_witness :
+    let m := ((MgrN.init (w := 32)).plan3 0 (wrN 32 0) (wrN 32 5)).plan3 1 (wrN 32 2147483646) (wrN 32 2147483647)
+    m.lst = [1, 0] ∧ (m.tm 0).check true (wrN 32 2147483646) = true ∧
+    (execLoopN true (fun _ _ => []) (wrN 32 2147483646) 5 0 m).2 = ([], true) := by
+  decide
+
+/-! ### time going backwards, time jumping far ahead -/
+
+/-- `exec` with a time that is NOT LATER than the time of an `exec` that has returned (time going
+backwards, or the same time again) makes no callback and changes nothing — whatever the callbacks
+would do.  (Far AHEAD: `catch_up` / `catch_up_count` — one firing per missed period, `⌊(now−d)/iv⌋+1`
+of them, at `d, d+iv, …`; "without drift" requires exactly that the k-th deadline is `d + k·iv`
+however late `exec` comes.) -/
+theorem exec_backwards_no_fire (m : Mgr) (now0 now : Int) (h0 : ∀ i ∈ m.lst, now0 < (m.tm i).finish)
+    (hle : now ≤ now0) (cb : Cb) (fuel k : Nat) : execLoop cb now fuel k m = (m, [], true) := by
+  have hd : m.headDue now = none := by
+    unfold Mgr.headDue
+    split
+    · rfl
+    · rename_i i rest hl
+      have := h0 i (by rw [hl]; simp)
+      have hc : (m.tm i).check now = false := by
+        simp only [Timer.check, Timer.finish, decide_eq_false_iff_not] at this ⊢
+        omega
+      simp [hc]
+  cases fuel with
+  | zero => simp [execLoop, hd]
+  | succ n => simp [execLoop, hd]
+
+/-- … in particular after any `exec(now0)` that returned (`all_due_fire` gives the hypothesis) -/
+theorem exec_twice_backwards (cb cb' : Cb) (now0 now : Int) (fuel fuel' k k' : Nat) (m : Mgr) (hm : WF m)
+    (hcb : CbPos cb) (hfin : (execLoop cb now0 fuel k m).2.2 = true) (hle : now ≤ now0) :
+    execLoop cb' now fuel' k' (execLoop cb now0 fuel k m).1 = ((execLoop cb now0 fuel k m).1, [], true) :=
+  exec_backwards_no_fire _ now0 now (all_due_fire cb now0 fuel k m hm hcb hfin) hle cb' fuel' k'
+
+example : WF Mgr.init ∧ CbPos (fun _ _ => []) ∧ (execLoop (fun _ _ => []) 5 3 0 Mgr.init).2.2 = true :=
+  ⟨init_wf, by intro k i j s iv h; simp at h, by decide⟩
+
+
+/-! ### the repaired findings: re-entrant `exec`, `minimal_interval` of an empty manager (`Guard.lean`) -/
+
+/-- RE-ENTRANT `exec` (repaired C16-nested-exec-refires): with callbacks that make plan / unplan
+calls and call `exec(now')` of the same manager ANYWHERE in between — with any times, while their own
+timer is still planned and due — `exec` is exactly the `exec` of the same callbacks without those
+calls.  So every theorem above (`not_early`, `all_due_fire`, `order_in_exec*`, `rearm_*`, `catch_up`,
+`refines_reference_exec` …) holds for such callbacks; in particular no timer's callback is run twice
+for one deadline. -/
+theorem nested_exec_ignored (cb : Nat → Nat → List ActG) (fuel : Nat) (now : Int) (k : Nat) (m : Mgr) :
+    execG (fun k i => (cb k i).map ActG.toX) fuel now k m =
+      ((execLoop (fun k i => (cb k i).filterMap ActG.base?) now fuel k m).1,
+       (execLoop (fun k i => (cb k i).filterMap ActG.base?) now fuel k m).2.1,
+       statOfBool (execLoop (fun k i => (cb k i).filterMap ActG.base?) now fuel k m).2.2) :=
+  execG_guard_aux cb fuel now k m
+
+/-- the scenario of `nested_exec_refires_witness` on the repaired code: timer 0 (deadline 5) calls
+`exec(5)` from its callback — one callback, and it is re-armed at 10 -/
+theorem nested_exec_no_refire_witness :
+    let r := execG (fun k _ => if k = 0 then [ActX.exec 5] else []) 5 5 0 ((Mgr.init.plan3 0 0 5).plan3 1 0 6)
+    r.2.1 = [⟨0, 5⟩] ∧ r.2.2 = Stat.done ∧ (r.1.tm 0).finish = 10 ∧ r.1.lst = [1, 0] := by
+  decide
+
+/-- `minimal_interval(now)` (repaired C16-minimal-interval-empty) at FULL strength, for every
+manager: when nothing is planned the reference has nothing pending and the result is the "never"
+value `numeric_limits<difftime_t>::max()`; otherwise it is the reference's time to the earliest
+pending deadline -/
+theorem minimal_interval_total (dmax : Int) (m : Mgr) (hm : WF m) (now : Int) :
+    (m.empty = true → m.minimalIntervalC dmax now = dmax ∧ (absM m).IsEmpty) ∧
+    (m.empty = false → (absM m).Earliest (m.minimalIntervalC dmax now + now)) := by
+  cases hl : m.lst with
+  | nil =>
+    have he : m.empty = true := by simp [Mgr.empty, hl]
+    refine ⟨fun _ => ⟨by simp [Mgr.minimalIntervalC, hl], (empty_eq m).mp he⟩, fun h => ?_⟩
+    rw [he] at h; exact absurd h (by decide)
+  | cons i rest =>
+    have he : m.empty = false := by simp [Mgr.empty, hl]
+    refine ⟨fun h => by rw [he] at h; exact absurd h (by decide), fun _ => ?_⟩
+    have h1 : m.minimalInterval now = some ((m.tm i).finish - now) := by simp [Mgr.minimalInterval, hl]
+    have h2 : m.minimalIntervalC dmax now = (m.tm i).finish - now := by simp [Mgr.minimalIntervalC, hl]
+    rw [h2]
+    exact minimal_interval_eq m hm now _ h1
+
+
+/-! ### `igris::delegate` (model `Delegate.lean`): the delegate invoked is the one stored, with its
+argument, exactly once -/
+
+/-- for every way of constructing an armed delegate, `invoke(arg)` makes exactly ONE call: of the
+stored function with `arg`; of the stored external function with the stored object pointer (null
+allowed) and `arg`; of the stored member function on the stored object with `arg` -/
+theorem delegate_invokes_stored (arg : Int) :
+    (∀ f, f ≠ 0 → (Dlg.ofFunction f).invoke arg = [Call.function f arg]) ∧
+    (∀ f obj, f ≠ 0 → (Dlg.ofExt f obj).invoke arg = [Call.ext f obj arg]) ∧
+    (∀ fn adj obj, fn ≠ 0 → obj ≠ 0 → adj ≠ BitVec.allOnes 64 →
+      (Dlg.ofMethod fn adj obj).invoke arg = [Call.method fn adj obj arg]) := by
+  refine ⟨fun f hf => ?_, fun f obj hf => ?_, fun fn adj obj hf ho ha => ?_⟩
+  · simp [Dlg.invoke, Dlg.ofFunction, Dlg.armed, hf]
+  · simp [Dlg.invoke, Dlg.ofExt, Dlg.armed, hf]
+  · have ha' : ¬ adj = 18446744073709551615#64 := ha
+    simp [Dlg.invoke, Dlg.ofMethod, Dlg.armed, hf, ho, ha']
+
+example : (1 : Nat) ≠ 0 ∧ (0#64) ≠ BitVec.allOnes 64 := by decide
+
+/-- an unarmed delegate (default constructed, cleaned, or after `invoke_and_reset`) calls nothing;
+a copy calls exactly what the original calls; `invoke_and_reset` makes the call of the delegate as it
+was and leaves it unarmed; `operator==` is "same stored target" -/
+theorem delegate_unarmed_copy_reset (d : Dlg) (arg : Int) :
+    (d.clean.invoke arg = [] ∧ d.clean.armed = false) ∧
+    d.copy.invoke arg = d.invoke arg ∧
+    ((d.invokeAndReset arg).2 = d.invoke arg ∧ (d.invokeAndReset arg).1.invoke arg = [] ∧
+      (d.invokeAndReset arg).1.armed = false) ∧
+    (∀ e : Dlg, d.eq e = true ↔ d = e) := by
+  refine ⟨⟨by simp [Dlg.clean, Dlg.invoke, Dlg.armed], by simp [Dlg.clean, Dlg.armed]⟩, rfl,
+    ⟨rfl, by simp [Dlg.invokeAndReset, Dlg.clean, Dlg.invoke, Dlg.armed],
+      by simp [Dlg.invokeAndReset, Dlg.clean, Dlg.armed]⟩, fun e => ?_⟩
+  cases d; cases e
+  simp [Dlg.eq, and_assoc]
+  constructor
+  · rintro ⟨a, b, c⟩; exact ⟨c, a, b⟩
+  · rintro ⟨a, b, c⟩; exact ⟨b, c, a⟩
+
+/-- exactly once per due deadline: a timer whose `execute()` is `dlg(arg)` makes, in one `exec`, as
+many calls of the stored target as the model makes callbacks of that timer -/
+theorem delegate_once_per_due (d : Dlg) (arg : Int) (c : Call) (hd : d.invoke arg = [c]) (fires : List Fire) :
+    fires.flatMap (fun _ => d.invoke arg) = List.replicate fires.length c := by
+  induction fires with
+  | nil => rfl
+  | cons f fs ih =>
+    rw [List.flatMap_cons, ih, hd, List.length_cons, List.replicate_succ]
+    rfl
+
+/-- where the representation does NOT do what was stored (not reachable through `make_delegate`
+with a valid object): a member function stored with a NULL object pointer is called as a plain
+function (the object test decides METHOD / FUNCTION) -/
+theorem delegate_method_null_object_witness :
+    (Dlg.ofMethod 7 0 0).invoke 1 = [Call.function 7 1] := by decide
+
+
+/-! ### `check()` of the manager at the timer level: exact admissible regions -/
+
+/-- signed instances (`int32_t`, `int64_t`, `timer_spec<uint32_t, int32_t>`): `check` agrees with
+the integer rule `start + interval ≤ curtime` (fields read as signed values) EXACTLY in the
+region of `stimer_transfer_iff` — it is the same rule -/
+theorem timer_check_signed_transfer_iff {w : Nat} (hw : 0 < w) (t : TimerN w) (c : BitVec w) :
+    (t.check true c = true ↔ t.start.toInt + t.interval.toInt ≤ c.toInt) ↔
+      ((-(2 ^ (w - 1)) ≤ c.toInt - t.start.toInt ∧ c.toInt - t.start.toInt < 2 ^ (w - 1)) ∨
+       (2 ^ (w - 1) ≤ c.toInt - t.start.toInt ∧ t.interval.toInt ≤ c.toInt - t.start.toInt - 2 ^ w) ∨
+       (c.toInt - t.start.toInt < -(2 ^ (w - 1)) ∧ c.toInt - t.start.toInt + 2 ^ w < t.interval.toInt)) := by
+  have e : t.check true c = stimerCheckN ⟨t.start, t.interval, true⟩ c := by
+    simp [TimerN.check, TimerN.ivalue, TimerN.elapsed, stimerCheckN]
+  have h := stimer_transfer_iff hw ⟨t.start, t.interval, true⟩ c
+  simp only [true_and, Bool.true_eq_false, false_or] at h
+  rw [e]
+  exact h
+
+/-- unsigned instance (`uint32_t`): `check` agrees with `start + interval ≤ curtime` on the
+unsigned values EXACTLY when the counter has not wrapped since `start` (`start ≤ curtime`), or it
+has and the interval is larger than the wrapped elapsed time -/
+theorem timer_check_unsigned_transfer_iff {w : Nat} (t : TimerN w) (c : BitVec w) :
+    (t.check false c = true ↔ t.start.toNat + t.interval.toNat ≤ c.toNat) ↔
+      (t.start.toNat ≤ c.toNat ∨ c.toNat + 2 ^ w - t.start.toNat < t.interval.toNat) := by
+  have hs := t.start.isLt
+  have hc := c.isLt
+  have hi := t.interval.isLt
+  have hsub : (c - t.start).toNat = if t.start.toNat ≤ c.toNat then c.toNat - t.start.toNat
+      else c.toNat + 2 ^ w - t.start.toNat := by
+    rw [BitVec.toNat_sub]
+    split
+    · rename_i h
+      have : 2 ^ w - t.start.toNat + c.toNat = (c.toNat - t.start.toNat) + 2 ^ w := by omega
+      rw [this, Nat.add_mod_right, Nat.mod_eq_of_lt (by omega)]
+    · rename_i h
+      rw [Nat.mod_eq_of_lt (by omega)]; omega
+  simp only [TimerN.check, TimerN.ivalue, TimerN.elapsed, Bool.false_eq_true, if_false, decide_eq_true_eq,
+    Int.ofNat_le, hsub]
+  split <;> omega
+
+-- both regions are inhabited on a 32-bit counter: before the wrap, and across it with a long interval
+example : ((4294967290#32).toNat ≤ (4294967295#32).toNat) ∧
+    ((5#32).toNat + 2 ^ 32 - (4294967290#32).toNat < (100#32).toNat) := by decide
 
 end Igris.C16
